@@ -36,6 +36,13 @@ Theorem C05_fuel_suffices : forall bs, dec_full bs <> DFuel.
 Proof. exact (dec_full_fuel_ok known_prim utf8_valid). Qed.
 Print Assumptions C05_fuel_suffices.
 
+(* ---- [pdec_full] transcribes unforge_micheline's control flow literally (one buffer, an index,
+        "ptr == end" checked after each sequence); it computes the same function as the sub-buffer
+        decoder [dec_full] about which the other theorems speak *)
+Theorem C05_index_decoder_equiv : forall bs, pdec_full bs = dec_full bs.
+Proof. exact pdec_full_eq_py. Qed.
+Print Assumptions C05_index_decoder_equiv.
+
 (* ---- the decoder accepts exactly the relational grammar, and returns the tree it denotes *)
 Theorem C05_dec_iff_grammar : forall bs n, dec_full bs = DOk n <-> MichEnc n bs.
 Proof. exact (dec_full_iff known_prim utf8_valid). Qed.
